@@ -19,7 +19,12 @@ class ConditionalEffect:
         self.discrete_effects = set()
         self.numeric_effects = set()
 
-    def __str__(self):
+    def print(self, should_simplify: bool = True) -> str:
+        """Print the conditional effect.
+
+        :param should_simplify: whether to print the antecedents in a simplified format (for numeric expressions).
+        :return: the string representing the conditional effect.
+        """
         discrete_effect = "\n\t".join(
             [effect.untyped_representation for effect in self.discrete_effects]
         )
@@ -28,9 +33,12 @@ class ConditionalEffect:
         )
 
         return (
-            f"(when {str(self.antecedents)} "
+            f"(when {self.antecedents.print(should_simplify=should_simplify)} "
             f"(and {discrete_effect}{numeric_effect}))"
         )
+
+    def __str__(self):
+        return self.print()
 
 
 class UniversalEffect:
@@ -45,7 +53,12 @@ class UniversalEffect:
         self.quantified_type = quantified_type
         self.conditional_effects = set()
 
-    def __str__(self):
+    def print(self, should_simplify: bool = True) -> str:
+        """Print the universal effect.
+
+        :param should_simplify: whether to print the antecedents in a simplified format (for numeric expressions).
+        :return: the string representing the universal effect.
+        """
         if len(self.conditional_effects) == 0:
             return ""
 
@@ -53,6 +66,9 @@ class UniversalEffect:
         for conditional_effect in self.conditional_effects:
             combined_universal_effect += (
                 f"(forall ({self.quantified_parameter} - {self.quantified_type.name})"
-                f"\n\t\t{str(conditional_effect)})\n\t"
+                f"\n\t\t{conditional_effect.print(should_simplify)})\n\t"
             )
         return combined_universal_effect
+
+    def __str__(self):
+        return self.print()
